@@ -1213,11 +1213,14 @@ fn run_case(case: &Case, tgt: Tgt, mode: &Mode, out: &mut Out, hist: &mut Hist) 
                 "err:none".to_string()
             } else if e.starts_with("Shader does not contain the pipeline: ") {
                 "err:unknown".to_string()
+            } else if e.contains("metal generate: UnsupportedBindGroupIndex(") {
+                // a bind group beyond the argument buffers Metal provides is refused cleanly (predicted by the model)
+                "err:UnsupportedBindGroupIndex".to_string()
             } else {
                 format!("err:{}", one_line(&e.chars().take(100).collect::<String>()))
             };
             hist.add("outcome=error");
-            let skip = !(obs == "err:none" || obs == "err:unknown");
+            let skip = !(obs == "err:none" || obs == "err:unknown" || obs == "err:UnsupportedBindGroupIndex");
             out.case(&req, &obs, if skip { "SKIP:compile error" } else { "ok" });
         }
         Raw::Panic(p) => {
@@ -1298,6 +1301,12 @@ fn mutate(case: &mut Case, rng: &mut Rng, hist: &mut Hist) {
         if r.kind.starts_with("Texture") && !r.bl && r.group.is_none() {
             r.stat = true;
         }
+    }
+    // a bind group beyond the four argument buffers Metal provides (refused there, fine on HLSL)
+    if !case.res.is_empty() && rng.chance(1, 24) {
+        let k = rng.below(case.res.len() as u64) as usize;
+        case.res[k].group = Some(4 + rng.below(3) as u32);
+        hist.add("variant=bind-group-4-plus");
     }
     // kinds progen does not draw
     if !case.res.is_empty() && rng.chance(1, 8) {
